@@ -28,7 +28,9 @@ def replay(ctx, binary, cfg, label, sim=0, depth=18, timeout=1500):
     s = vlib.handle_driver_results(ctx, res)
     if s.get("stuck_steps", 0) >= 3:
         raise vlib.Inconclusive("TIMEOUT", "%s: gated loader did not reach its gates" % label)
-    if s.get("drift", 0):
+    if s.get("drift", 0) and s.get("violating", 0):
+        ctx.notes.append("%s: %d behaviours drifted from the model next to %d violating ones" % (label, s["drift"], s["violating"]))
+    elif s.get("drift", 0):
         raise vlib.Inconclusive("MODEL-DIVERGENCE", "%s: %d behaviours where the real DB content differs from the model: %s" % (label, s["drift"], s.get("drift_samples")))
     if not s.get("fast_index_entries_found_by_reads"):
         raise vlib.Inconclusive("VACUOUS", "%s: no read ever found a fast-index entry" % label)
@@ -67,7 +69,8 @@ def run(ctx):
         ctx.cov["model_switches_load_bearing"] = sorted(want)
     # (R) replay with the FastSound scan after every step
     if quick:
-        replay(ctx, binary, "FastIndex_rqe.cfg", "every edge, under rootmulti (collector, KeepRecent=1, toggles), <=6 steps")
+        replay(ctx, binary, "FastIndex_sqe.cfg", "every edge, standalone store (toggles, same-handle reloads), <=6 steps")
+        replay(ctx, binary, "FastIndex_rqe.cfg", "every edge, under rootmulti (collector, KeepRecent=1, toggles, same-handle reloads), <=6 steps")
         replay(ctx, binary, "FastIndex_lqe.cfg", "every edge, gated concurrent loader over the live DB, <=7 steps")
         replay(ctx, binary, "FastIndex_lsim.cfg", "simulation, loader + toggles, 4 versions, 18 steps", sim=150)
     else:
@@ -81,4 +84,6 @@ def run(ctx):
     ctx.assumptions += ["the authoritative value is the one the store iterator (tree walk, never the index) returns on the same handle; "
                         "for the concurrent loader, an index-free immutable store at the same version",
                         "a batch write of the backing DB is atomic (the loader's reads interleave between, not inside, commits)",
-                        "the loader runs over the live DB handle (ImmutableDB fallback / direct library use); with a snapshot backend its reads are atomic"]
+                        "the loader runs over the live DB handle (ImmutableDB fallback / direct library use); with a snapshot backend its reads are atomic",
+                        "after the last step of every behaviour one more real block (unrelated key, commit) is executed and scanned: "
+                        "state a step left staged behind the model's back becomes durable there"]
